@@ -186,11 +186,13 @@ def prepare_tree(slot, real_zeroize=False, replay=False):
             prev = json.load(f).get("digest")
     except Exception:
         pass
-    if prev != digest:
-        now = time.time()
-        for rel in rels:
-            if rel.endswith(".rs"):
-                os.utime(os.path.join(tree, rel), (now, now))
+    # Always give the workspace sources a fresh mtime: cargo then rebuilds the three kestrel crates (5-10 s) and can
+    # never reuse objects built from another tree state in this slot (observed once: a stale build of a mutated tree).
+    # Third-party dependencies stay cached.
+    now = time.time()
+    for rel in rels:
+        if rel.endswith(".rs"):
+            os.utime(os.path.join(tree, rel), (now, now))
     os.makedirs(os.path.dirname(slot.state), exist_ok=True)
     with open(slot.state, "w") as f:
         json.dump({"digest": digest, "at": time.time()}, f)
